@@ -2354,7 +2354,7 @@ class Interpreter(InterpreterBase, HoldableObject):
             if has_path_sep(rule):
                 raise InvalidArguments('"output" must not contain a directory separator.')
         if len(kwargs['output']) > 1:
-            for o in kwargs['output']:
+            for o in kwargs['arguments']:
                 if '@OUTPUT@' in o:
                     raise InvalidArguments('Tried to use @OUTPUT@ in a rule with more than one output.')
 
